@@ -399,6 +399,18 @@ func (s *Script) evalWithRoot(stack, data, root any) (any, Expr) {
 	return stack, locs
 }
 
+// sameValue is == for values that can be compared; lists and maps are never the
+// same value (comparing them with == panics).
+func sameValue(left, right any) bool {
+	if lt := reflect.TypeOf(left); lt != nil && !lt.Comparable() {
+		return false
+	}
+	if rt := reflect.TypeOf(right); rt != nil && !rt.Comparable() {
+		return false
+	}
+	return left == right
+}
+
 func normalize(v any) any {
 	switch tv := v.(type) {
 	case int:
@@ -467,7 +479,7 @@ func evalStack(sstack []any) []any {
 		case group.code:
 			sstack[i] = left
 		case eq.code:
-			if left == right {
+			if sameValue(left, right) {
 				sstack[i] = true
 			} else {
 				sstack[i] = false
@@ -482,7 +494,7 @@ func evalStack(sstack []any) []any {
 				}
 			}
 		case neq.code:
-			if left == right {
+			if sameValue(left, right) {
 				sstack[i] = false
 			} else {
 				sstack[i] = true
@@ -683,7 +695,7 @@ func evalStack(sstack []any) []any {
 			sstack[i] = false
 			if list, ok := right.([]any); ok {
 				for _, ev := range list {
-					if left == ev {
+					if sameValue(left, ev) {
 						sstack[i] = true
 						break
 					}
